@@ -178,10 +178,36 @@ def build(spec):
 
 
 # ---------------------------------------------------------------- structural plans (from the run, dtype-free)
+class InternalChanged(Exception):
+    """a library internal the MODEL tie relies on is missing or has another shape"""
+
+
+def pub_fuse(x, groups, mode):
+    """fuse through the public method of the base class (fermionic arrays: on the phase-synchronised data)"""
+    from symmray import AbelianArray
+    return AbelianArray.fuse(x, *[tuple(g) for g in groups], mode=mode)
+
+
+def fuse_info(x, groups):
+    try:
+        from symmray.abelian_core import calc_fuse_block_info
+        info = tuple(calc_fuse_block_info(x, tuple(tuple(g) for g in groups)))
+    except Exception as e:      # noqa: BLE001
+        raise InternalChanged('calc_fuse_block_info: %s: %s' % (type(e).__name__, e))
+    if len(info) < 9:
+        raise InternalChanged('calc_fuse_block_info returns %d values (9 expected)' % len(info))
+    (num_groups, singlets, perm, position, ax_before, ax_after, new_axes, new_indices, blockmap) = info[:9]
+    good = (isinstance(num_groups, int) and isinstance(position, int) and isinstance(blockmap, dict)
+            and isinstance(new_indices, tuple) and all(hasattr(ix, 'chargemap') for ix in new_indices)
+            and set(blockmap) == set(x.blocks)
+            and all(isinstance(v, tuple) and len(v) == 3 for v in blockmap.values()))
+    if not good:
+        raise InternalChanged('calc_fuse_block_info: the first 9 returned values do not have the expected layout')
+    return info[:9]
+
+
 def fuse_plans(x, groups):
-    from symmray.abelian_core import calc_fuse_block_info
-    (num_groups, singlets, perm, position, ax_before, ax_after, new_axes, new_indices, blockmap) = \
-        calc_fuse_block_info(x, tuple(tuple(g) for g in groups))
+    (num_groups, singlets, perm, position, ax_before, ax_after, new_axes, new_indices, blockmap) = fuse_info(x, groups)
     insert_plan = [blockmap[s][1] for s in x.blocks]
     inv = {}
     order = []
@@ -240,9 +266,11 @@ def gbw(plan):
 
 
 def unfuse_plan(x, axis):
-    from symmray.abelian_core import replace_with_seq
-    ext = x.indices[axis].subinfo.extents
-    return [[replace_with_seq(s, axis, sub) for sub in ext[s[axis]]] for s in x.blocks]
+    try:
+        ext = x.indices[axis].subinfo.extents
+        return [[tuple(s[:axis]) + tuple(sub) + tuple(s[axis + 1:]) for sub in ext[s[axis]]] for s in x.blocks]
+    except Exception as e:      # noqa: BLE001
+        raise InternalChanged('subinfo.extents: %s: %s' % (type(e).__name__, e))
 
 
 def gunf(plan):
@@ -258,6 +286,12 @@ class Rec:
         self.failures = []
         self.ops = {}
         self.zero_sites = {}
+        self.internal_broken = {}
+
+    def internal(self, where, e):
+        """a model tie had to be skipped because a library internal is unusable"""
+        k = '%s: %s' % (where, str(e)[:160])
+        self.internal_broken[k] = self.internal_broken.get(k, 0) + 1
 
     def expr(self, op, e, info=None):
         self.exprs.append(e)
@@ -322,37 +356,42 @@ def imag_multiset(blocks):
 # ---------------------------------------------------------------- the operations
 def run_fuse(R, x, groups, tagname='fuse'):
     """both strategies on the (phase-synchronised) block data; returns failures through R"""
-    import symmray as sr
-    from symmray import AbelianArray
     xs = x.phase_sync() if getattr(x, 'fermionic', False) else x
     tin = tags_of(xs)
     dts = sorted(set(d for _, d in tin))
     exp = dense_dtype(lambda *a: np.concatenate([q.ravel() for q in a]), *[d for _, d in tin]) if tin else None
+    ins_plan = concat_plan = None
     try:
         ins_plan, concat_plan = fuse_plans(xs, groups)
+    except InternalChanged as e:
+        R.internal('fuse plan', e)
     except Exception as e:          # noqa: BLE001
-        return None
+        R.internal('fuse plan', '%s: %s' % (type(e).__name__, e))
     res = {}
     for mode in ('insert', 'concat'):
         with warnings.catch_warnings(record=True) as w:
             warnings.simplefilter('always')
             try:
-                f = xs._fuse_core(*[tuple(g) for g in groups], mode=mode)
-            except (KeyError, AttributeError):
-                R.ctx.extra['concat_crash_F6'] = R.ctx.extra.get('concat_crash_F6', 0) + 1
+                f = pub_fuse(xs, groups, mode)
+            except Exception as e:          # noqa: BLE001
+                R.ctx.count()
+                R.failures.append({'oracle': 'block_dtype', 'op': 'fuse_%s_raises' % mode, 'mode': mode, 'result': 'exception',
+                                   'expected_dtype': exp, 'got': [], 'detail': 'fuse(mode=%r) raised %s: %s' % (mode, type(e).__name__, str(e)[:200]),
+                                   'inputs': [spec_of(x)], 'args': {'groups': [list(g) for g in groups], 'mode': mode},
+                                   'input_block_dtypes': [[d for _, d in tin]]})
                 continue
         res[mode] = f
         warn = [str(m.message) for m in w if 'discards the imaginary' in str(m.message)]
         try:
-            if mode == 'insert':
+            if mode == 'insert' and ins_plan is not None:
                 R.expr('fuse_insert', 'tarr_eqb (fst (fuse_insert %s %s)) %s' % (
                     glist([gsec(s) for s in ins_plan]), gtarr(tin), gtarr(tags_of(f))), (x, groups))
-            else:
+            elif mode == 'concat' and concat_plan is not None:
                 cp = concat_plan()
                 R.expr('fuse_concat', 'tarr_eqb (fst (fuse_concat %s %s)) %s' % (
                     glist(['(%s, %s)' % (gsec(ns), gtree(t)) for ns, t in cp]), gtarr(tin), gtarr(tags_of(f))), (x, groups))
-        except KeyError:
-            pass
+        except Exception as e:          # noqa: BLE001
+            R.internal('fuse plan (%s)' % mode, '%s: %s' % (type(e).__name__, e))
         extra = None
         if warn:
             extra = 'ComplexWarning raised: ' + warn[0]
@@ -468,7 +507,10 @@ def structure_ops(R, rng, sr, x, dt):
             if f.indices[ax].subinfo is not None:
                 fs = f.phase_sync() if ferm else f
                 u = f.unfuse(ax)
-                R.expr('unfuse', 'tarr_eqb (unfuse %s %s) %s' % (gunf(unfuse_plan(fs, ax)), gtarr(tags_of(fs)), gtarr(tags_of(u))), None)
+                try:
+                    R.expr('unfuse', 'tarr_eqb (unfuse %s %s) %s' % (gunf(unfuse_plan(fs, ax)), gtarr(tags_of(fs)), gtarr(tags_of(u))), None)
+                except InternalChanged as e:
+                    R.internal('unfuse plan', e)
                 R.oracle('unfuse', 'result', u, dt, [f], {'axis': ax})
                 break
         R.oracle('unfuse_all', 'result', f.unfuse_all(), dt, [f])
@@ -550,7 +592,6 @@ def binary_ops(R, rng, sr, x, y, dt, dty):
 
 def contraction_ops(R, rng, sr, a, b, ncon, dt):
     """a's last ncon axes against b's first ncon; all modes"""
-    from symmray.abelian_core import AbelianArray, drop_misaligned_sectors, tensordot_abelian
     ferm = getattr(a, 'fermionic', False)
     axa = tuple(range(a.ndim - ncon, a.ndim))
     axb = tuple(range(ncon))
@@ -569,16 +610,33 @@ def contraction_ops(R, rng, sr, a, b, ncon, dt):
         R.oracle('tensordot_scalar', 'scalar', s, dt, [a, b], allow_py=True)
     if ferm:
         return
-    # model correspondence on the abelian core
+    try:
+        contraction_model(R, a, b, axes, ncon, dt)
+    except InternalChanged as e:
+        R.internal('contraction plan', e)
+    except Exception as e:          # noqa: BLE001
+        R.internal('contraction plan', '%s: %s' % (type(e).__name__, e))
+
+
+def contraction_model(R, a, b, axes, ncon, dt):
+    """model correspondence on the abelian core (uses library internals: every failure here is a broken tie, not a crash)"""
+    import symmray as sr
+    from symmray import AbelianArray
+    try:
+        from symmray.abelian_core import _tensordot_blockwise, drop_misaligned_sectors
+    except Exception as e:      # noqa: BLE001
+        raise InternalChanged('import of _tensordot_blockwise / drop_misaligned_sectors: %s' % e)
     left = tuple(i for i in range(a.ndim) if i not in axes[0])
     right = tuple(i for i in range(b.ndim) if i not in axes[1])
-    cb = tensordot_abelian(a, b, axes, mode='blockwise', preserve_array=True)
+    with warnings.catch_warnings():
+        warnings.simplefilter('ignore')
+        cb = sr.tensordot(a, b, axes, mode='blockwise', preserve_array=True)
+        cf = sr.tensordot(a, b, axes, mode='fused', preserve_array=True)
     R.expr('tensordot_blockwise', 'otarr_eqb (tdot_blockwise %s %s %s) (Some %s)' % (
         gbw(bw_plan(a, b, left, axes[0], axes[1], right)), gtarr(tags_of(a)), gtarr(tags_of(b)), gtarr(tags_of(cb))), None)
     a2, b2 = drop_misaligned_sectors(a, b, axes[0], axes[1])
     ka = [k in a2.blocks for k in a.blocks]
     kb = [k in b2.blocks for k in b.blocks]
-    cf = tensordot_abelian(a, b, axes, mode='fused', preserve_array=True)
     if a2.blocks and b2.blocks:
         ga = [g for g in (left, axes[0]) if g]
         gb_ = [g for g in (axes[1], right) if g]
@@ -591,7 +649,6 @@ def contraction_ops(R, rng, sr, a, b, ncon, dt):
         l2, a2x = {(False, False): ((), ()), (False, True): ((), (0,)), (True, False): ((0,), ()), (True, True): ((0,), (1,))}[bool(left), bool(axes[0])]
         b2x, r2 = {(False, False): ((), ()), (False, True): ((), (0,)), (True, False): ((0,), ()), (True, True): ((0,), (1,))}[bool(axes[1]), bool(right)]
         pc = bw_plan(af, bf, l2, a2x, b2x, r2)
-        from symmray.abelian_core import _tensordot_blockwise
         cfm = _tensordot_blockwise(af, bf, l2, a2x, b2x, r2)
         unf = []
         todo = ([cfm.ndim - 1] if len(right) > 1 else []) + ([0] if len(left) > 1 else [])
@@ -721,8 +778,8 @@ def mixed_chains(R, rng, sr, x, y, dt):
             if len(set(dts)) > 1:
                 R.ctx.nontrivial(('mixed_single_plus_double', dt, symname(x), tuple(dts)))
                 zs = z.phase_sync() if getattr(z, 'fermionic', False) else z
-                f = zs._fuse_core(*groups, mode='insert')
-                g = zs._fuse_core(*groups, mode='concat')
+                f = pub_fuse(zs, groups, 'insert')
+                g = pub_fuse(zs, groups, 'concat')
                 lost = any(f.blocks[k].dtype != g.blocks[k].dtype or not np.array_equal(f.blocks[k], g.blocks[k]) for k in f.blocks)
                 R.ctx.count()
                 if lost:
@@ -731,6 +788,120 @@ def mixed_chains(R, rng, sr, x, y, dt):
                                        'detail': 'insert-fuse rounds float64 blocks to float32 (first block is float32); concat-fuse keeps float64',
                                        'inputs': [spec_of(z)], 'args': {'groups': [list(g_) for g_ in groups]},
                                        'input_block_dtypes': [dts]})
+
+
+# ---------------------------------------------------------------- same structure, different dtype, warm cache
+WARM_SEQ = ['float64', 'complex128', 'complex64', 'float32', 'float64']
+TOL = {'float64': 1e-12, 'complex128': 1e-12, 'float32': 1e-5, 'complex64': 1e-5}
+
+
+def recast(x, dt):
+    """identically structured array (same indices, same stored sectors in the same order, same signs / labels)
+    of dtype dt.  Gaussian-integer data; the double-precision versions carry a 2**-30 offset that float32 cannot hold."""
+    y = x.copy()
+
+    def conv(b):
+        z = np.asarray(b).astype('complex128')
+        if not np.iscomplexobj(b):
+            z = z + 1j * np.roll(z.real.ravel(), 1).reshape(z.shape)
+        z = np.round(z.real) + 1j * np.round(z.imag)
+        if dt in ('float64', 'complex128'):
+            z = z + (2.0 ** -30) * (1 + 1j)
+        return (z if 'complex' in dt else z.real).astype(dt)
+    y.apply_to_arrays(conv)
+    return y
+
+
+def warm_checks(sr, xm, bm, groups, axes, seq=WARM_SEQ):
+    """run the same fuse (both strategies) and the same fused contraction on identically structured arrays of
+    the dtypes in `seq`, one after the other in this process (so the fuse-info cache is warm from the previous
+    dtype).  Public API only.  Returns (number of checks, list of failure dicts without the inputs)."""
+    fails, n = [], 0
+    try:        # start cold, like the replay process does (best effort: the oracle does not depend on it)
+        from symmray import abelian_core as _ac
+        _ac._fuseinfos.clear()
+    except Exception:      # noqa: BLE001
+        pass
+    for step, dt in enumerate(seq):
+        x = recast(xm, dt)
+        xs = x.phase_sync() if getattr(x, 'fermionic', False) else x
+        res = {}
+
+        def fail(op, mode, detail, got):
+            fails.append({'op': op, 'mode': mode, 'expected_dtype': dt, 'step': step, 'sequence': list(seq[:step + 1]),
+                          'detail': '%s of a %s array directly after the same operation on identically structured %s arrays: %s'
+                                    % (op, dt, ' -> '.join(seq[:step]) or '(nothing)', detail), 'got': got})
+        for mode in ('insert', 'concat'):
+            n += 1
+            with warnings.catch_warnings(record=True) as w:
+                warnings.simplefilter('always')
+                try:
+                    f = pub_fuse(xs, groups, mode)
+                except Exception as e:      # noqa: BLE001
+                    fail('warm_cache_fuse', mode, 'raised %s: %s' % (type(e).__name__, str(e)[:160]), [])
+                    continue
+            res[mode] = f
+            got = [[str(k), d] for k, d in tags_of(f)]
+            bad = sorted(set(d for _, d in tags_of(f) if d != dt))
+            if bad:
+                fail('warm_cache_fuse', mode, 'blocks have dtype %s' % bad, got)
+            elif any('discards the imaginary' in str(m.message) for m in w):
+                fail('warm_cache_fuse', mode, 'ComplexWarning: imaginary part discarded', got)
+            elif imag_multiset(f.blocks) != imag_multiset(xs.blocks):
+                fail('warm_cache_fuse', mode, 'the |re| / |im| multisets of the non-zero entries changed (imaginary part or precision lost)', got)
+        if len(res) == 2:
+            n += 1
+            a, b = res['insert'], res['concat']
+            if not (set(a.blocks) == set(b.blocks) and all(a.blocks[k].dtype == b.blocks[k].dtype and
+                                                            np.array_equal(a.blocks[k], b.blocks[k]) for k in a.blocks)):
+                fail('warm_cache_fuse_insert_vs_concat', 'insert', 'insert-fuse and concat-fuse disagree', [[str(k), d] for k, d in tags_of(a)])
+        if bm is not None:
+            n += 1
+            y = recast(bm, dt)
+            with warnings.catch_warnings(record=True) as w:
+                warnings.simplefilter('always')
+                try:
+                    cf = sr.tensordot(x, y, axes, mode='fused', preserve_array=True)
+                    cb = sr.tensordot(x, y, axes, mode='blockwise', preserve_array=True)
+                except Exception as e:      # noqa: BLE001
+                    fail('warm_cache_tensordot_fused', 'fused', 'raised %s: %s' % (type(e).__name__, str(e)[:160]), [])
+                    continue
+            cfs = cf.phase_sync() if getattr(cf, 'fermionic', False) else cf
+            cbs = cb.phase_sync() if getattr(cb, 'fermionic', False) else cb
+            got = [[str(k), d] for k, d in tags_of(cfs)]
+            bad = sorted(set(d for _, d in tags_of(cfs) if d != dt))
+            if bad:
+                fail('warm_cache_tensordot_fused', 'fused', 'blocks have dtype %s' % bad, got)
+            elif any('discards the imaginary' in str(m.message) for m in w):
+                fail('warm_cache_tensordot_fused', 'fused', 'ComplexWarning: imaginary part discarded', got)
+            else:
+                zero = lambda v: not np.any(v)
+                keys = set(cfs.blocks) | set(cbs.blocks)
+                scale = max([1.0] + [float(np.max(np.abs(v))) for v in cbs.blocks.values() if v.size])
+                for k in keys:
+                    u, v = cfs.blocks.get(k), cbs.blocks.get(k)
+                    ok_ = (zero(v) if u is None else zero(u) if v is None else
+                           u.shape == v.shape and bool(np.all(np.abs(u - v) <= TOL[dt] * scale)))
+                    if not ok_:
+                        fail('warm_cache_tensordot_fused', 'fused', 'block %r differs from the blockwise contraction beyond %g (imaginary part or precision lost)' % (k, TOL[dt]), got)
+                        break
+    return n, fails
+
+
+def warm_stream(R, sr, xm, bm, groups, axes):
+    own = [d for _, d in tags_of(xm)][:1]      # the regular stream just ran on this dtype: keeps every replay self-contained
+    n, fails = warm_checks(sr, xm, bm, groups, axes, own + WARM_SEQ)
+    R.ctx.count(n)
+    R.ops['warm_cache'] = R.ops.get('warm_cache', 0) + n
+    first = {}
+    for f in fails:
+        first.setdefault(f['op'], f)
+    for f in first.values():
+        R.failures.append({'oracle': 'block_dtype', 'result': 'fused', **f,
+                           'inputs': [spec_of(xm)] + ([spec_of(bm)] if bm is not None else []),
+                           'args': {'groups': [list(g) for g in groups], 'axes': [list(axes[0]), list(axes[1])] if axes else None,
+                                    'sequence': f['sequence'], 'mode': f['mode'], 'warm': True},
+                           'input_block_dtypes': [[f['expected_dtype']]]})
 
 
 # ---------------------------------------------------------------- kernel table tie
@@ -836,6 +1007,13 @@ def run(ctx):
                         if ferm and S.parity(b.charge) and S.parity(x.charge):
                             pass
                         contraction_ops(R, rng, sr, x, b, ncon, dt)
+                        if dt == 'complex128' and nd >= 3:
+                            axs = list(range(nd))
+                            rng.shuffle(axs)
+                            wg = [tuple(axs[:2]), tuple(axs[2:])] if nd == 4 else [tuple(axs[:2])]
+                            wa = (tuple(range(nd - ncon, nd)), tuple(range(ncon)))
+                            warm_stream(R, sr, x, b if ncon else None, wg, wa)
+                            ctx.nontrivial(('warm_cache', ferm, sym, nd, ncon, len(x.blocks)))
                     if sym == 'Z2':
                         # forced zero blocks inside both fused operands of the fused contraction path
                         i2 = [sr.BlockIndex({0: rng.choice([1, 2]), 1: rng.choice([1, 2])}, dual=d) for d in (False, False, True, True)]
@@ -846,6 +1024,8 @@ def run(ctx):
                         for k in ((0, 0, 1, 1), (1, 0, 1, 0)):
                             fb.blocks.pop(k, None)
                         contraction_ops(R, rng, sr, fa, fb, 2, dt)
+                        if dt == 'complex128':
+                            warm_stream(R, sr, fa, fb, [(0, 1), (2, 3)], ((2, 3), (0, 1)))
                         ctx.nontrivial(('forced_fused', dt, ferm))
                     # matrices
                     ix = rand_index(rng, sr, sym, dual=False, n=3, sizes=(1, 2, 3))
@@ -872,7 +1052,13 @@ def run(ctx):
     # findings / violations
     known = {f.get('family'): f for f in common.load_known_findings().get('findings', []) if f.get('property') == 'C20'}
     seen_known, reported = set(), 0
-    for f in R.failures:
+    # report distinct operations first, and among them those whose replay carries its own cache history
+    rank, per_op = {}, {}
+    for i, f in enumerate(R.failures):
+        per_op[f['op']] = per_op.get(f['op'], 0) + 1
+        rank[i] = (per_op[f['op']], 0 if (f.get('args') or {}).get('warm') else 1, i)
+    for i in sorted(rank, key=rank.get):
+        f = R.failures[i]
         fam = classify(f)
         if fam and fam in known:
             if fam not in seen_known:
@@ -885,6 +1071,8 @@ def run(ctx):
         if reported < 5:
             reported += 1
             ctx.violation('%s: %s' % (f['op'], f['detail'][:200]), {**f, 'family': fam})
+    for k, cnt in sorted(R.internal_broken.items()):
+        tie_broken.append('library internal unusable, model correspondence skipped for %d cases (oracle still ran through the public API): %s' % (cnt, k))
     ctx.broken += tie_broken
     if (not ok or tie_broken) and not reported:
         ctx.violation('proof obligation or tie of C20 no longer checks', {'broken': ctx.broken}, found_input=False)
@@ -895,6 +1083,10 @@ def run(ctx):
     if gap:
         ctx.extra['generator_gap'] = gap
     ctx.extra['oracle_checks_per_op'] = dict(sorted(R.ops.items()))
+    fo = {}
+    for f in R.failures:
+        fo[f['op']] = fo.get(f['op'], 0) + 1
+    ctx.extra['oracle_failures_per_op'] = dict(sorted(fo.items()))
     ctx.extra['tie'] = {'kernel_table_cases': len(tex), 'operation_model_cases': len(R.exprs)}
     ctx.note('an array with NO stored blocks reports dtype float64 and to_dense / fill_missing_blocks give float64 '
              '(get_any_array() falls back to the Python float 0.0): no data, nothing to preserve — side condition of the theorem, not a violation')
@@ -918,9 +1110,17 @@ def replay(path):
     out = None
     with warnings.catch_warnings(record=True) as w:
         warnings.simplefilter('always')
+        if args.get('warm'):
+            import symmray as sr
+            axes = tuple(tuple(a) for a in args['axes']) if args.get('axes') else None
+            n, fails = warm_checks(sr, x, xs[1] if len(xs) > 1 else None, [tuple(g) for g in args['groups']], axes, args['sequence'])
+            for f in fails:
+                print('FAIL:', f['detail'], f['got'][:4])
+            print('%d checks along the dtype sequence %s, %d failed' % (n, args['sequence'], len(fails)))
+            return 1 if fails else 0
         if 'fuse' in op and 'groups' in args and op != 'fuse_public':
             xs_ = x.phase_sync() if getattr(x, 'fermionic', False) else x
-            out = xs_._fuse_core(*[tuple(g) for g in args['groups']], mode=args.get('mode', r.get('mode', 'insert')))
+            out = pub_fuse(xs_, args['groups'], args.get('mode', r.get('mode', 'insert')))
         elif op == 'fuse_public':
             out = x.fuse(*[tuple(g) for g in args['groups']])
         elif op == 'to_dense':
